@@ -239,6 +239,33 @@ Theorem c09_hook_ttl_round :
 Proof. exact hook_ttl_round. Qed.
 Print Assumptions c09_hook_ttl_round.
 
+(* File names: the three files live under <name>, <name>-bak, <name>-shrink for the configured log
+   name.  The repaired start-up (restore under the configured name, open the configured name) is
+   the directory-level recover_dir, for every name and whatever unrelated files are around. *)
+Theorem c09_recover_fs_is_recover_dir :
+  forall n d rest, msorted rest -> recover_fs n n (to_fs n d rest) = recover_dir d.
+Proof. exact recover_fs_is_recover_dir. Qed.
+Print Assumptions c09_recover_fs_is_recover_dir.
+
+(* Hence every crash point is recovered under EVERY configured log name. *)
+Theorem c09_crash_points_named :
+  forall n rest fi c, msorted rest ->
+    same_data (replay (f_snap fi ++ f_slog fi) []) (replay (f_live fi ++ f_pend fi) []) ->
+    let s := recover_fs n n (to_fs n (crash_at fi c) rest) in
+    same_data s (replay (f_live fi) []) \/ same_data s (replay (f_live fi ++ f_pend fi) []).
+Proof. exact crash_points_named. Qed.
+Print Assumptions c09_crash_points_named.
+
+(* A restore that looks under another name than the one the server opens (e.g. the default name
+   while --appendfilename is set) comes up empty after a crash between the two renames. *)
+Theorem c09_restore_other_name_refuted :
+  exists n0 n fi, n0 <> n /\
+    same_data (replay (f_snap fi ++ f_slog fi) []) (replay (f_live fi ++ f_pend fi) []) /\
+    (exists k i v, lookup k i (replay (f_live fi) []) = Some v) /\
+    recover_fs n0 n (to_fs n (crash_at fi CP_after_rename_bak) []) = [].
+Proof. exact restore_other_name_refuted. Qed.
+Print Assumptions c09_restore_other_name_refuted.
+
 (* ---------------------------------------------------------------- non-vacuity *)
 
 (* ten collections, one with 40 objects (more than maxids = 32, and more keys than maxkeys = 8):
@@ -340,3 +367,15 @@ Example c09_ex_hook_kind_switch :
   hs_done (hr_sh r) = true /\ hr_live r = [([120], chanB)] /\ length (hnewfile r) = 4%nat /\
   hreplay_orig (hnewfile r) [] = None /\ hreplay (hnewfile r) [] = hr_live r.
 Proof. vm_compute. repeat split; reflexivity. Qed.
+
+(* a five-byte log name "x.aof" next to an unrelated file: the crash between the two renames is
+   recovered from x.aof-bak; looking under another name finds nothing *)
+Example c09_ex_named :
+  msorted ex_rest /\ length ex_name = 5%nat /\
+  let fs := to_fs ex_name (crash_at ex_final CP_after_rename_bak) ex_rest in
+  length fs = 3%nat /\ get ex_name fs = None /\ get (bak_name ex_name) fs <> None /\
+  recover_fs ex_name ex_name fs = replay (f_live ex_final ++ f_pend ex_final) [] /\
+  recover_fs [97] ex_name fs = [] /\ replay (f_live ex_final ++ f_pend ex_final) [] <> [].
+Proof.
+  split; [repeat constructor|]. vm_compute. repeat split; try reflexivity; discriminate.
+Qed.
